@@ -220,6 +220,21 @@ class DSDLTemplateLoader(BaseLoader):
 
         return template_path
 
+    def find_user_template(self, template_name: str) -> typing.Optional[pathlib.Path]:
+        """
+        Find the file-system template that masks a built-in template of the same name.
+
+        :param template_name: The name of the template (e.g. ``serialization.j2``).
+        :return: The path to the template in the first user-provided templates directory that contains it or
+                 None if no user-provided template masks this name.
+        """
+        if self._fsloader is not None:
+            for template_dir in self._fsloader.searchpath:
+                candidate = pathlib.Path(str(template_dir)) / template_name
+                if candidate.is_file():
+                    return candidate
+        return None
+
     # +----------------------------------------------------------------------------------------------------------------+
     # | PRIVATE
     # +----------------------------------------------------------------------------------------------------------------+
